@@ -5,5 +5,7 @@ CONSTANTS
   VaryBase = FALSE
   MaxTests = 1
   RichCapture = TRUE
+  MaxSteps = 0
+  LifeWrites = {}
 INVARIANT EmitVerdict
 CHECK_DEADLOCK FALSE
